@@ -558,8 +558,13 @@ class JsonHistory(History):
         if self.filename and not os.path.exists(os.path.expanduser(self.filename)):
             meta["cmds"] = []
             meta["sessionid"] = str(self.sessionid)
-            with open(self.filename, "w", newline="\n", encoding="utf-8") as f:
-                xlj.ljdump(meta, f, sort_keys=True)
+            # "x": os.path.exists() also answers False when stat() fails (EIO,
+            # ESTALE); a file that is there after all must not be truncated.
+            try:
+                with open(self.filename, "x", newline="\n", encoding="utf-8") as f:
+                    xlj.ljdump(meta, f, sort_keys=True)
+            except FileExistsError:
+                pass
 
             try:
                 sudo_uid = os.environ.get("SUDO_UID")
